@@ -308,14 +308,14 @@ func (fx *FuncCtx) havoc(pre *State, ms *modSet, lf *loopFrame, bodyDefs map[typ
 	sort.Slice(objs, func(i, j int) bool { return objs[i].Pos() < objs[j].Pos() })
 	for _, o := range objs {
 		if hv, ok := pre.vars[o].(heapVar); ok {
-			v, facts := fx.freshVal(fmt.Sprintf("%s@L%d", o.Name(), lf.ord), o.Type())
+			v, facts := fx.freshValAny(fmt.Sprintf("%s@L%d", o.Name(), lf.ord), o.Type())
 			fx.storeHeap(h, hv.prefix, hv.ref, o.Type(), v)
 			for _, f := range facts {
 				h.assume(f)
 			}
 			continue
 		}
-		v, facts := fx.freshVal(fmt.Sprintf("%s@L%d", o.Name(), lf.ord), o.Type())
+		v, facts := fx.freshValAny(fmt.Sprintf("%s@L%d", o.Name(), lf.ord), o.Type())
 		// slices keep being slices of some region; nothing else is known
 		fx.refFacts(h, v)
 		h.vars[o] = v
